@@ -128,6 +128,23 @@ def parse_trace(path, dest):
     return ops, counts
 
 
+def recreate_after_death(r, dist, exe, mode, dest, seed, my, label, how):
+    """after a creation that died: create again at the same destination, in the directory as the dead
+    run left it (stray temporary files included); the destination must then hold the complete container"""
+    rc2, out2 = sh([exe, "c09child", mode, dest, str(seed)], timeout=60)
+    vrc2, vout2 = sh([exe, "c09verify", mode, dest, str(seed)])
+    r["evaluations"] += 1
+    line2 = vout2.strip().splitlines()[-1] if vout2.strip() else ""
+    m2 = re.match(r"entry=(.*?) temps=(\d+) files=(.*)$", line2)
+    state2 = m2.group(1).split(":")[0] if m2 else "unclassified"
+    key = f"recreate-after-death:{'creation-ok' if rc2 == 0 else 'creation-failed'}:{state2}"
+    dist[key] = dist.get(key, 0) + 1
+    if rc2 == 0 and state2 != "complete":
+        r["fails"].append({"case": my, "sig": "destination-after-recreation", "what": f"{label}: after a creation that died ({how}), a second, undisturbed creation at the same destination returned success but the destination is {m2.group(1) if m2 else line2[-120:]}; directory: {m2.group(3) if m2 else ''}"})
+    if rc2 == 124:
+        r["fails"].append({"case": my, "sig": "hang-after-recreation", "what": f"{label}: creation after a dead run ({how}) did not terminate"})
+
+
 def run(ctx):
     eng = ctx["engine"]
     exe = ctx["exe"]
@@ -228,6 +245,8 @@ def run(ctx):
                     # leave the run undisturbed *and* unreported by strace; count undisturbed runs
                     if rc == 0:
                         dist["runs_undisturbed"] = dist.get("runs_undisturbed", 0) + 1
+                    if variant.startswith("KILL") and rc not in (0, 1, 124) and (tier != "quick" or k % 2 == 1):
+                        recreate_after_death(r, dist, exe, mode, dest, seed, my, label, f"{variant} at syscall #{k}")
             # ---- 3. byte offsets: no output file may grow beyond N bytes (RLIMIT_FSIZE) — the write that
             # crosses byte N is short, the following one fails; process death (SIGXFSZ) and error return
             # (EFBIG) variants.  N ranges over every byte offset of the largest file in the thorough tier.
@@ -264,6 +283,8 @@ def run(ctx):
                         r["fails"].append({"case": my, "sig": f"hang-{variant}", "what": f"{label}: {variant} at byte {nb}: creation did not terminate"})
                     if rc == 0:
                         dist["fsize_runs_undisturbed"] = dist.get("fsize_runs_undisturbed", 0) + 1
+                    if variant == "FSIZE-KILL" and rc not in (0, 1, 124) and (tier != "quick" or nb % 3 == 0):
+                        recreate_after_death(r, dist, exe, mode, dest, seed, my, label, f"file size limit {nb}")
             r["distinct"] += 1
     # self-check of the injector: if (almost) every faulted run completed normally the faults are not
     # being delivered (e.g. the syscall set is not in strace's trace set) and the run proves nothing
